@@ -19,7 +19,7 @@ const (
 )
 
 var d7URLs = []string{"http://json-schema.org/draft-07/schema#", "http://json-schema.org/draft-07/schema", "https://json-schema.org/draft-07/schema#"}
-var d2020URLs = []string{"https://json-schema.org/draft/2020-12/schema", "https://json-schema.org/draft/2020-12/schema#", "http://json-schema.org/draft/2020-12/schema"}
+var d2020URLs = []string{"https://json-schema.org/draft/2020-12/schema", "https://json-schema.org/draft/2020-12/schema#", "http://json-schema.org/draft/2020-12/schema", "https://json-schema.org/schema"}
 
 // node: a schema with generators of conforming / violating instances.
 type node struct {
